@@ -16,6 +16,11 @@ C19 - every accepted file can be checked and fixed without a crash or a hang (cr
                  is a ClassifyError; the classifier helpers that search for a closing token raise the
                  located ClassifyError instead of falling off; no bare/broad `except` swallows errors in
                  the engine (listed).
+  C19.key        a look-up with a computed key in a user-supplied mapping (the configuration dictionary, the
+                 --fix_only dictionary, and local aliases of their sub-dictionaries) is guarded by one of the
+                 idioms all of today's sites use: an enclosing try catching KeyError, a dominating `key in
+                 mapping` test, a key that iterates over that very mapping, or an identical look-up earlier in
+                 the function inside such a try (whose handler dealt with absence).
   C19.progress   every `while` loop in vsg/rules and vsg/vhdlFile/extract changes a variable of its
                  condition or leaves the loop on every path through its body.
   C19.unbound    cross-reference listing only (never an alarm): locals that are possibly unbound on some
@@ -42,6 +47,83 @@ META = {
 }
 
 
+_USER_MAPS = ("dConfig", "dFixOnly", "configurationFile", "dConfiguration")
+
+
+def _expand(fi, e, depth=0):
+    """Text of e with single-assignment locals replaced by their defining expression (depth 2)."""
+    if isinstance(e, ast.Name) and depth < 2:
+        vals = [n.value for n in walk_function(fi.node) if isinstance(n, ast.Assign) and len(n.targets) == 1 and isinstance(n.targets[0], ast.Name) and n.targets[0].id == e.id]
+        if len(vals) == 1 and isinstance(vals[0], (ast.Subscript, ast.Attribute, ast.Name)):
+            return _expand(fi, vals[0], depth + 1)
+        return e.id
+    if isinstance(e, ast.Subscript):
+        return "%s[%s]" % (_expand(fi, e.value, depth), norm(e.slice))
+    return norm(e)
+
+
+def _in_keyerror_try(fi, node):
+    q = getattr(node, "_parent", None)
+    while q is not None and q is not fi.node:
+        if isinstance(q, ast.Try) and any(node is y for st in q.body for y in ast.walk(st)):
+            for h in q.handlers:
+                ht = norm(h.type) if h.type is not None else "<bare>"
+                if "KeyError" in ht or ht in ("<bare>", "Exception", "LookupError"):
+                    return True
+        q = getattr(q, "_parent", None)
+    return False
+
+
+def _user_keys(r, p, reach):
+    n_sites = 0
+    for fi in sorted(p.functions.values(), key=lambda f: f.key):
+        if fi.key not in reach:
+            continue
+        facts = None
+        subs = [x for x in walk_function(fi.node) if isinstance(x, ast.Subscript) and isinstance(x.ctx, ast.Load) and not isinstance(x.slice, (ast.Constant, ast.Slice))]
+        if not subs:
+            continue
+        guarded_texts = set()
+        for x in subs:
+            if _in_keyerror_try(fi, x):
+                guarded_texts.add(_expand(fi, x))
+        for x in subs:
+            full = _expand(fi, x)
+            base = _expand(fi, x.value)
+            if not any(m in base for m in _USER_MAPS):
+                continue
+            n_sites += 1
+            kk = "%s:%s" % (fi.key, full[:80])
+            key = norm(x.slice)
+            if _in_keyerror_try(fi, x):
+                r.ok("C19.key", kk, "inside try/except KeyError", sample=False)
+                continue
+            if facts is None:
+                facts = Facts(fi.node)
+            if any(key in t and ((pol is True and " in " in t and " not in " not in t) or (pol is False and " not in " in t)) for t, pol in facts.conds_at(x)):
+                r.ok("C19.key", kk, "dominated by a membership test of the key", sample=False)
+                continue
+            loopkey = False
+            q = getattr(x, "_parent", None)
+            while q is not None and q is not fi.node:
+                if isinstance(q, ast.For) and any(isinstance(y, ast.Name) and y.id in {z.id for z in ast.walk(x.slice) if isinstance(z, ast.Name)} for y in ast.walk(q.target)) and any(m in _expand(fi, q.iter) if isinstance(q.iter, (ast.Name, ast.Subscript, ast.Attribute)) else any(m in norm(q.iter) for m in _USER_MAPS) for m in _USER_MAPS):
+                    loopkey = True
+                q = getattr(q, "_parent", None)
+            if loopkey:
+                r.ok("C19.key", kk, "the key iterates over the mapping itself", sample=False)
+                continue
+            if full in guarded_texts and any(_in_keyerror_try(fi, y) and _expand(fi, y) == full and y.lineno < x.lineno for y in subs):
+                r.ok("C19.key", kk, "the same look-up was made earlier inside try/except KeyError (the handler dealt with the missing key)")
+                continue
+            if r.tabled("C19.key", kk):
+                r.ok("C19.key", kk, "tabled", sample=False)
+                continue
+            r.fail("C19.key", kk, "`%s` looks a computed key up in a user-supplied mapping without a guard (no try/except KeyError, no membership test, no earlier guarded look-up): a rule or name the user did not list raises KeyError - a traceback instead of a report" % norm(x)[:70], fi.loc(x))
+    r.extra["user_mapping_lookups"] = n_sites
+    if n_sites < 10:
+        raise AnalysisError("only %d computed-key look-ups in user-supplied mappings found" % n_sites)
+
+
 def run(ctx):
     p = ctx.program
     cg = ctx.callgraph()
@@ -50,12 +132,14 @@ def run(ctx):
     r.rule("C19.none", "results that may be None are guarded before numeric/index/attribute use")
     r.rule("C19.shape", "no always-raising expression shapes")
     r.rule("C19.boundary", "ClassifyError/ConfigurationError boundary; classifier raises only ClassifyError")
+    r.rule("C19.key", "computed-key look-ups in user-supplied mappings are guarded against a missing key")
     r.rule("C19.progress", "while loops in rules/extract make progress")
     r.rule("C19.unbound", "possibly-unbound locals (listing only)")
     r.explanation = "Whole-program def-use over functions reachable from vsg.__main__:main / apply_rules; each rule's hits are individually triaged (fixed, known finding, or tabled with reason)."
     main = p.function("vsg.__main__:main")
     ar = p.function("vsg.apply_rules:apply_rules")
     reach = cg.reachable([main, ar])
+    _user_keys(r, p, reach)
     # ------------------------------------------------------------------ none
     mn = nf.may_none(p)
     r.extra["functions_that_may_return_none"] = len(mn)
@@ -345,6 +429,11 @@ def _unbound_in(fi):
 
 
 VARIANTS = [
+    Variant("C19", "fix_only look-up loses its KeyError guard", "fire",
+            [("vsg/rule.py", "        try:\n            if \"all\" in dFixOnly[\"fix\"][\"rule\"][self.unique_id]:\n                return\n        except KeyError:\n            self.violations = []\n", "        dFixRules = dFixOnly[\"fix\"][\"rule\"]\n        if \"all\" in dFixRules.get(self.unique_id, []):\n            return\n"),
+             ("vsg/rule.py", "            if oViolation.get_line_number() in dFixOnly[\"fix\"][\"rule\"][self.unique_id]:", "            if oViolation.get_line_number() in dFixRules[self.unique_id]:")], rule="C19.key"),
+    Variant("C19", "twin: fix_only look-up guarded by a membership test", "silent",
+            [("vsg/rule.py", "        try:\n            if \"all\" in dFixOnly[\"fix\"][\"rule\"][self.unique_id]:\n                return\n        except KeyError:\n            self.violations = []\n", "        if self.unique_id not in dFixOnly[\"fix\"][\"rule\"]:\n            self.violations = []\n            return\n        if \"all\" in dFixOnly[\"fix\"][\"rule\"][self.unique_id]:\n            return\n")]),
     Variant("C19", "end-of-file IndexError no longer converted", "fire",
             [("vsg/vhdlFile/vhdlFile.py", "            try:\n                design_file.tokenize(self.lAllObjects)\n            except IndexError:\n                raise exceptions.ClassifyError(\"Error: Unexpected end of file detected while parsing file \" + str(self.filename))\n", "            design_file.tokenize(self.lAllObjects)\n")], rule="C19.boundary", key="end-of-file"),
     Variant("C19", "guard removed from open_paren_after_assignment_operator", "fire",
